@@ -839,6 +839,14 @@ func (e *Engine) step(s *State) []*State {
 			if s.panicd != "" {
 				return nil
 			}
+			// *(*string)(unsafe.Pointer(&bytes)): a slice header read as a string shares the slice's memory
+			if sl, isSlice := r.(*SliceV); isSlice && isString(x.Type()) {
+				if sl.Obj == 0 {
+					r = &StringV{B: EmptyBytes()}
+				} else {
+					r = &StringV{B: SliceBytes(s.heap[sl.Obj].B, sl.Off, Add(sl.Off, sl.Len)), Alias: sl.Obj}
+				}
+			}
 			set(r)
 		case token.NOT:
 			set(Not(v.(*Term)))
